@@ -607,6 +607,30 @@ def knowledge_typing(facts, rep):
                 rep.ob("C02.W", "%s|sender#%d" % (name, k), s_ in K,
                        "Send(%s,%s): the sender can compute the payload (known to %s)" % (s_, r_, sorted(K)) if s_ in K else
                        "Send(%s,%s): party %s sends a value that only parties %s can compute" % (s_, r_, s_, sorted(K)), b.loc(nb))
+        # sends inside local closures, judged once per call site (the closure's parameters take the call's arguments)
+        for cbb, ct in b.calls():
+            cb = facts.bodies.get(callee_name(ct) or "")
+            if cb is None or cb.kind != "closure" or b.is_cleanup(cbb):
+                continue
+            kn = kn or Knowledge(facts, b)
+            ck = kn.closure_knowledge(cb.id, cbb)
+            if ck is None:
+                continue
+            site_no = sum(1 for b2, t2 in b.calls() if callee_name(t2) == cb.id and b2 < cbb)
+            for k, (nb, (s_, r_)) in enumerate(sorted(ck.sends.items())):
+                if s_ is None:
+                    continue
+                src = ck.node_args(cb.term(nb))
+                if not src:
+                    continue
+                K, exact = ck.of_operand(src[0], (nb, None))
+                if not exact:
+                    continue
+                judged += 1
+                rep.ob("C02.W", "%s|%s@call%d|sender#%d" % (name, cb.id.split("::")[-1], site_no, k), s_ in K,
+                       "Send(%s,%s) inside the closure: the sender can compute the payload (known to %s)" % (s_, r_, sorted(K)) if s_ in K else
+                       "Send(%s,%s) inside the closure: party %s sends a value that only parties %s can compute" % (s_, r_, s_, sorted(K)),
+                       cb.loc(nb))
     rep.analysed["knowledge_typed_judgements"] = judged
     rep.floor("C02.W", "exact ownership judgements", judged, 2)
 
